@@ -1,6 +1,6 @@
 (* Props/C14.v — C14 property theorems only (shared model Model/C03_Copy.v). *)
 From Coq Require Import List Arith Bool.
-From Verif Require Import Model.C03_Copy Proofs.C03.
+From Verif Require Import Model.C03_Copy Model.C14_Head Proofs.C03 Proofs.C14h.
 Import ListNotations.
 
 (* BlobCopy's ladder, all 32 configurations: a blob the target has is never fetched or uploaded; within one
@@ -20,6 +20,29 @@ Print Assumptions C14_blob_copy_minimal.
 Theorem C14_each_blob_once : forall t s k, all_ok t = true -> owner_count k s t <= 1.
 Proof. exact owner_count_le1. Qed.
 Print Assumptions C14_each_blob_once.
+
+(* the ladder at the head of every manifest copy (imageCopyOpt, Model/C14_Head.v), for every target answer, every source
+   digest and every option set: the copy is skipped only when the target's digest IS the source's; with the identical image
+   at the target and default options there is one HEAD of the target, at most one HEAD of the source and no body is fetched;
+   with referrers or digest tags requested an equal image manifest is not fetched again; a missing or differing manifest is
+   always fetched *)
+Theorem C14_skip_only_when_equal : forall tgt known src fast force refs dtags tl acts,
+  known_ok known src -> head_ladder tgt known src fast force refs dtags tl = (acts, true) -> tgt = Some src.
+Proof. exact skip_sound. Qed.
+Print Assumptions C14_skip_only_when_equal.
+Theorem C14_identical_image_skipped : forall d known, known_ok known d ->
+  head_ladder (Some d) known d false false false false false = ([AHeadTgt], true) \/
+  head_ladder (Some d) known d false false false false false = ([AHeadTgt; AHeadSrc], true).
+Proof. exact identical_skipped. Qed.
+Print Assumptions C14_identical_image_skipped.
+Theorem C14_equal_manifest_not_refetched : forall d known refs dtags, known_ok known d -> refs || dtags = true ->
+  ~ In AGetSrcMan (fst (head_ladder (Some d) known d false false refs dtags false)).
+Proof. exact equal_image_body_not_refetched. Qed.
+Print Assumptions C14_equal_manifest_not_refetched.
+Theorem C14_differing_manifest_fetched : forall tgt known src fast force refs dtags tl,
+  known_ok known src -> tgt <> Some src -> In AGetSrcMan (fst (head_ladder tgt known src fast force refs dtags tl)).
+Proof. exact differing_fetched. Qed.
+Print Assumptions C14_differing_manifest_fetched.
 
 Example C14_nonvacuous :
   owner_count 7 (mkSeen [] []) [SAsk 7; SAsk 7; SAsk 8; SDone 7 true; SAsk 7; SDone 8 true] = 1.
